@@ -374,6 +374,12 @@ def gen_ni_history(seed):
         mols = [{"name": rng.choice(["He", "He", "Li", "O"]), "basis": "sto-3g", "dseed": rng.below(10**6)}]
         nmol = 1
         grids = [{"atom_grid": [200, 434], "prune": False}]
+        if rng.chance(0.5):
+            # several blocks at the *default* budget exist only here: half of these histories
+            # use a model whose nonlocal and SDMX parts both loop over the blocks
+            s_, ev_, mode_, ver_ = [m_ for m_ in NI_MODELS if m_[0] == "nldf_j_sdmx"][0]
+            models[0] = dict(models[0], settings=s_, ev=ev_, mode=mode_, version=ver_)
+            models[0].pop("calc1", None)
     ops = []
     if not big and rng.chance(0.12):
         # a data-set loop over look-alike molecules: the same atoms listed in another order
@@ -1394,6 +1400,24 @@ def exec_sdmxgen_history(hist, rp):
         ok, why = close(vm, vm_ref)
         if not ok:
             V("history_vs_fresh:EXXSphGenerator.get_vxc_:vmat", "step %d: %s" % (step, why))
+        if dms_orig.ndim == 3 and dms_orig.shape[0] > 1:
+            # several matrices in one call = each of them in a call of its own (a fresh
+            # generator asked with the same stack gives the same stack, right or wrong)
+            set_perturb(hist["perturb"] ^ 0x5A)
+            for idm in range(min(3, dms_orig.shape[0])):
+                g3 = EXXSphGenerator.from_settings_and_mol(st.sdmx_settings, p["nspin"], mol)
+                f3 = g3.get_features(np.array(dms_orig[idm], copy=True, order="C"), mol, coords.copy())
+                vm3 = np.zeros(dms_orig.shape[1:])
+                g3.get_vxc_(vm3, np.array(vg[idm], copy=True))
+                stats["reference_calls"] += 1
+                stats["comparisons"] += 2
+                ok, why = close(np.asarray(f)[idm], np.asarray(f3).reshape(np.asarray(f)[idm].shape))
+                if not ok:
+                    V("batch_vs_single:EXXSphGenerator.get_features:feat:idm%d" % min(idm, 1), "step %d matrix %d of %d: %s" % (step, idm, dms_orig.shape[0], why))
+                ok, why = close(vm[idm], vm3)
+                if not ok:
+                    V("batch_vs_single:EXXSphGenerator.get_vxc_:vmat:idm%d" % min(idm, 1), "step %d matrix %d of %d: %s" % (step, idm, dms_orig.shape[0], why))
+            set_perturb(hist["perturb"])
         dg.add(op["ngrids"], op["nset"])
     return viol, stats, dg
 
@@ -2310,8 +2334,26 @@ def exec_fl_history(hist, rp):
 EXEC = {"tgen": exec_tgen_history, "ni": exec_ni_history, "nldfgen": exec_nldfgen_history, "sdmxgen": exec_sdmxgen_history, "eval": exec_eval_history, "plan": exec_plan_history, "ks": exec_ks_history, "slplan": exec_slplan_history, "an": exec_an_history, "fl": exec_fl_history}
 
 
-def gen_history(kind, seed):
-    if kind == "ni":
+def gen_big_mixed_history(seed):
+    """a model whose nonlocal and SDMX parts both loop over the grid blocks, batches of two
+    and three matrices, on a grid above the integrators' block cap (several blocks at the
+    default memory budget): emitted on purpose, the seeded mix reaches it a few times per
+    thousand histories"""
+    rng = Rng(derive("c09-big-mixed", seed))
+    s_, ev_, mode_, ver_ = [m_ for m_ in NI_MODELS if m_[0] == "nldf_j_sdmx"][0]
+    m = {"settings": s_, "ev": ev_, "mode": mode_, "version": ver_, "seed": rng.below(10**6), "plan_type": rng.choice(["gaussian", "spline"]), "interp": "onsite_direct", "xmix": 0.5, "xc_form": "pbe_pair", "alpha_max": 3000.0, "lmax": None, "rhocut": None, "sdmx_kw": None, "via_file": False, "zero_d": False}
+    mols = [{"name": rng.choice(["He", "Li", "O"]), "basis": "sto-3g", "dseed": rng.below(10**6)}]
+    ops = []
+    u0 = bool(rng.chance(0.5))
+    for u_, nset, mm in ((u0, 2, 2000), (not u0, 2, 2000), (u0, rng.choice([1, 3]), rng.choice([4000, 100]))):
+        ops.append({"op": "call", "model": 0, "mol": 0, "grid": 0, "uks": u_, "dms": [rng.below(3) for _ in range(nset)], "max_memory": mm, "calc": 0, "container": "array", "alias": None})
+    return {"kind": "ni", "models": [m], "mols": mols, "grids": [{"atom_grid": [200, 434], "prune": False}], "ops": ops, "perturb": rng.choice(PERTURBS)}
+
+
+def gen_history(kind, seed, force=None):
+    if kind == "ni" and force == "big_mixed":
+        h = gen_big_mixed_history(seed)
+    elif kind == "ni":
         h = gen_ni_history(seed)
     elif kind == "gen":
         h = gen_gen_history(seed)
@@ -2522,7 +2564,7 @@ def run_case(spec):
         return run_faultenum(spec)
     if spec.get("hkind") == "gen_faultenum":
         return run_gen_faultenum(spec)
-    hist = spec.get("hist") or gen_history(spec["hkind"], spec["seed"])
+    hist = spec.get("hist") or gen_history(spec["hkind"], spec["seed"], spec.get("force"))
     rp = {"property": PROP, "engine": "histsim", "case": {"hist": hist, "hkind": spec.get("hkind"), "seed": spec.get("seed"), "proc_ref": bool(spec.get("proc_ref"))}}
     try:
         viol, stats, dg = EXEC[hist["kind"]](hist, rp)
@@ -2584,6 +2626,8 @@ def plan(tier, seed, args):
         n_ni, n_gen, n_ev = args.cases, args.cases // 2, args.cases // 2
     for i in range(n_ni):
         cases.append({"hkind": "ni", "seed": derive(seed, PROP, "ni", i) % 10**9, "proc_ref": (i % 4 == 2)})
+    for i in range(2 if tier == "quick" else 40):
+        cases.append({"hkind": "ni", "seed": derive(seed, PROP, "big-mixed", i) % 10**9, "proc_ref": False, "force": "big_mixed"})
     for i in range(n_gen):
         cases.append({"hkind": "gen", "seed": derive(seed, PROP, "gen", i) % 10**9})
     for i in range(n_ev):
